@@ -1,4 +1,4 @@
-// puremon: assertion monitors on pure functions of the repository (algebraic laws over
+// pure_tick: assertion monitors on pure functions (see DESIGN.md 3.3).
 // exhaustive / boundary / seeded inputs), built with checkptr (and ASan in the thorough tier).
 // One file per property; each registers its monitor in init().
 package main
